@@ -54,6 +54,9 @@ pub struct Event {
     pub r: Vec<i64>,
     pub y: Vec<Vec<i64>>,
     pub pn: String,
+    /// armed fault: class ("" none) and invocation index
+    pub fa: String,
+    pub fk: i64,
 }
 
 impl Event {
@@ -168,8 +171,8 @@ impl Tracer {
         let mut s = String::with_capacity(1024);
         let _ = write!(
             s,
-            "{{\"op\":\"{}\",\"t\":{},\"u\":{},\"k\":{},\"id\":{},\"v\":{},\"vid\":{},\"n\":{},\"j\":{},\"ks\":",
-            ev.op, ev.t, ev.u, ev.k, ev.id, ev.v, ev.vid, ev.n, ev.j
+            "{{\"op\":\"{}\",\"t\":{},\"u\":{},\"k\":{},\"id\":{},\"v\":{},\"vid\":{},\"n\":{},\"j\":{},\"fa\":\"{}\",\"fk\":{},\"ks\":",
+            ev.op, ev.t, ev.u, ev.k, ev.id, ev.v, ev.vid, ev.n, ev.j, ev.fa, ev.fk
         );
         jarr(&mut s, &ev.ks);
         s.push_str(",\"r\":");
